@@ -241,14 +241,14 @@ Qed.
 
 Theorem pred_ok_model sel ms dbg son mint maxt stores o_kept o_lsets :
   match matches_external_labels mname mmatch ms sel with
-  | None => pred_ok (CPrune sel ms dbg son mint maxt stores None [] o_kept o_lsets) = true
+  | None => pred_skip (CPrune sel ms dbg son mint maxt stores None [] o_kept o_lsets) = true
   | Some kept =>
-      pred_ok (CPrune sel ms dbg son mint maxt stores (Some (map mid kept))
+      pred_skip (CPrune sel ms dbg son mint maxt stores (Some (map mid kept))
                  (map (fun s => reason_code (store_matches mname mmatch dbg mint maxt kept (fst s))) stores)
                  o_kept o_lsets) = true
   end.
 Proof.
-  destruct (matches_external_labels mname mmatch ms sel) as [kept|] eqn:E; cbn [pred_ok].
+  destruct (matches_external_labels mname mmatch ms sel) as [kept|] eqn:E; cbn [pred_skip].
   - apply forallb_forall. intros [p r] Hin. cbn [fst snd].
     assert (Hr : r = reason_code (store_matches mname mmatch dbg mint maxt kept (fst p))).
     { clear -Hin. induction stores as [|s l IH]; cbn in Hin; [contradiction|].
@@ -302,4 +302,38 @@ Theorem selector_refuted :
 Proof.
   exists ex_lsets, ex_series, [(A, [49]%N)], B. split; [left; reflexivity|]. split; [vm_compute; reflexivity|].
   split; [vm_compute; right; left; reflexivity | vm_compute; reflexivity].
+Qed.
+
+(* ---- the label sets matchingStores hands to MatchersForLabelSets ---- *)
+Lemma matching_stores_lsets son dbg mint maxt ms (sts : list (nat * store)) i st :
+  In (i, st) sts -> fst (selector_match son st) = true ->
+  store_matches mname mmatch dbg mint maxt ms st = ROk ->
+  incl (snd (selector_match son st)) (snd (matching_stores mname mmatch son dbg mint maxt ms sts)).
+Proof.
+  induction sts as [|[j st'] r IH]; intros Hin Hsel Hok; [destruct Hin|].
+  cbn [matching_stores]. destruct (matching_stores mname mmatch son dbg mint maxt ms r) as [ks ls] eqn:E.
+  destruct Hin as [Hin|Hin].
+  - inversion Hin; subst. rewrite Hsel, Hok. cbn [snd]. apply incl_appl. apply incl_refl.
+  - specialize (IH Hin Hsel Hok). cbn [snd] in IH.
+    destruct (fst (selector_match son st')); [|exact IH].
+    destruct (store_matches mname mmatch dbg mint maxt ms st'); cbn [snd]; try exact IH.
+    apply incl_appr. exact IH.
+Qed.
+
+(* a queried store's KEPT label sets are among the sets the extra matchers are generated from, so
+   (for label sets with the same label names) no series of a kept set of a queried store is
+   rejected by the extra matchers *)
+Theorem selector_keeps_queried dbg mint maxt ms (sts : list (nat * store)) i st :
+  In (i, st) sts -> sexts st <> [] -> fst (selector_match true st) = true ->
+  store_matches mname mmatch dbg mint maxt ms st = ROk ->
+  let L := snd (matching_stores mname mmatch true dbg mint maxt ms sts) in
+  (forall l n, In l L -> In n (sel_names L) -> lhas l n = true) ->
+  forall s e n, In e (kept_lsets st) -> extends s e -> In n (sel_names L) ->
+  (forall v, In v (sel_alts n L) -> str_eqb v RE_EMPTY = false) ->
+  alt_sem (sel_alts n L) (lget s n) = true.
+Proof.
+  intros Hin Hne Hsel Hok L Hh s e n He Hext Hn Hre.
+  apply (selector_sound_homogeneous L Hh s e n); try assumption.
+  apply (matching_stores_lsets true dbg mint maxt ms sts i st Hin Hsel Hok).
+  unfold selector_match. cbn [negb orb]. destruct (sexts st) eqn:E; [exfalso; apply Hne; reflexivity|]. cbn [snd]. exact He.
 Qed.
